@@ -83,12 +83,29 @@ def runCase (cfg : Cfg) (ids : List Nat) (toks : List String) : String :=
       let sub := if s.subQueue.isEmpty then "-" else ",".intercalate (s.subQueue.map fun e => toString e.2.tag)
       "got " ++ got ++ " sub " ++ sub
 
-/-- batch: worker `j` pops request `j` (pops happen in index order), calls finish in `order`; the
-call for request `q` returns `q` (the scripted server echoes the request's own tag). -/
-def runBatch (n : Nat) (order : List Nat) : String :=
+/-- The scripted batch server: holds up to `w` arrived requests (arrival = index order in the
+model), answers `held[order[k] % |held|]` at its `k`-th answer. Returns the finish order. -/
+def batchFinishOrder (n w : Nat) (order : List Nat) : List Nat :=
+  let rec go (fuel : Nat) (held : List Nat) (next answered : Nat) (acc : List Nat) : List Nat :=
+    match fuel with
+    | 0 => acc.reverse
+    | fuel + 1 =>
+      let take := min (w - held.length) (n - next)
+      let held := held ++ (List.range take).map (· + next)
+      let next := next + take
+      if held.isEmpty then acc.reverse
+      else
+        let pick := (order.getD (answered % (max order.length 1)) 0) % held.length
+        let c := held.getD pick 0
+        go fuel (held.eraseIdx pick) next (answered + 1) (c :: acc)
+  go n [] 0 0 []
+
+/-- batch: worker `j` pops request `j` (pops happen in index order), the calls finish in the
+server's order; the call for request `q` returns `q` (the server echoes the request's own tag). -/
+def runBatch (n w : Nat) (order : List Nat) : String :=
   let b : Batch Nat Nat := Batch.start (List.range n)
   let b := (List.range n).foldl (fun b w => bstep b (.pop w)) b
-  let b := order.foldl (fun b w => match b.cur w with
+  let b := (batchFinishOrder n w order).foldl (fun b w => match b.cur w with
     | some (_, q) => bstep b (.finish w q)
     | none => b) b
   "out " ++ ",".intercalate (b.out.map fun o => match o with | some t => toString t | none => "none")
@@ -184,10 +201,10 @@ def stepLine (_ : Unit) (ws : List String) : Unit × String :=
     | some cfg =>
       let idl := (splitCommas ids).map natOf
       if idl.length ≠ natOf n then bad i else ((), i ++ " " ++ runCase cfg idl (splitCommas script))
-  | ["batch", i, client, n, _w, order] =>
+  | ["batch", i, client, n, w, order] =>
     match cfgOf (natOf client) with
     | none => bad i
-    | some _ => ((), i ++ " " ++ runBatch (natOf n) ((splitCommas order).map natOf))
+    | some _ => ((), i ++ " " ++ runBatch (natOf n) (natOf w) ((splitCommas order).map natOf))
   | ["dead", i, client, n, _tmo, answered, _fault, _when, _cut] =>
     match cfgOf (natOf client) with
     | none => bad i
